@@ -26,4 +26,25 @@ PROPS = {
         "trusted_base": STREAMS_TB,
         "assumptions": ["type names identify types (names_nodup is proved on the regenerated table)"],
     },
+    "C14": {
+        "level": "proof",
+        "lean_modules": ["AV.GenProps.C14", "AV.Props.C14"],
+        "support_modules": ["AV.Streams.Resolver", "AV.Spec.C14"],
+        "theorems": [
+            "AV.GenProps.c14_table",
+            "AV.Props.C14.spec_first", "AV.Props.C14.spec_none", "AV.Props.C14.typeResolve_eq_spec",
+            "AV.Props.C14.typeResolve_unknown", "AV.Props.C14.predApply_eq", "AV.Props.C14.jsonHandle_first",
+            "AV.Props.C14.unmatched_errors", "AV.Props.C14.shipped_diag", "AV.Props.C14.shipped_typeResolver",
+            "AV.Props.C14.shipped_predResolver",
+        ],
+        "translator_scope": [r"resolver", r"Resolver", r"constructor", r"IsUnmatchedErr", r"ToType", r"gen_lean", r"gen_harness", r"manager", r"T2 failed"],
+        "runners": [{"args": ["c14"], "timeout": 900}],
+        "exhaustive": {"quick": False, "thorough": False},
+        "rule": "exhaustive (value type x callback type) for TypeResolver, TypePredicatedResolver (63x63 each) and JSONResolver (63x63 documents), "
+                "plus random callback lists 0..8 with duplicates / mixed vocabularies / callbacks returning nil, an application error or an unmatched error, "
+                "multi-valued and unknown 'type', alias contexts, predicates passing/failing/erroring, and 34 wrong-shaped constructor arguments; "
+                "non-trivial = some callback is written for the value's own type; distinct by input hash",
+        "trusted_base": STREAMS_TB,
+        "assumptions": ["Go interface satisfaction: a value implements exactly its own type's vocab interface (the LessThan method pins it); validated by the exhaustive run"],
+    },
 }
